@@ -1,8 +1,9 @@
 (* DSL + wire codec for the tket model.  Programs (nested integer lists):
-     [1, circuit]            to_tk: (0 (tk flags routing_ok)) | (1 errcode)
-     [2, tk, scalar_flag]    from_tk: (0 (circuit-or-(1 err) trace_ok routing_ok (f18 f33)))
-     [3, circuit]            from_tk (to_tk c) on the insertion-order command list
-     [4, circuit]            prep c = remove_ket1 (init_and_discard c)
+     [1, fixes, circuit]          to_tk: (0 (tk-or-(1 err) flags routing_ok))
+     [2, fixes, tk, scalar_flag]  from_tk: (0 (circuit-or-(1 err) trace_ok routing_ok (f18 f33)))
+     [3, fixes, circuit]          from_tk (to_tk c) on the insertion-order command list
+     [4, circuit]                 prep c = remove_ket1 (init_and_discard c)
+   fixes = [fx10, fx18, fx31, fx32, fx33, fx34]  (0 = pinned behaviour, 1 = repaired)
    circuit = [dom, [[box, offset] ...]],  wire: 0 = bit, 1 = qubit
    box = [0, bs] Ket | [1, bs] Bra | [2, bs, dag] Bits | [3, g, n, num, exp] gate
        | [4, l, r] Swap | [5, n, destr, over] Measure | [6, dom] Discard
@@ -22,6 +23,15 @@ Definition sx_bools (s : sexp) : res (list bool) := do l <- sx_list s; mapM sx_b
 Definition dec_wty (s : sexp) : res wty :=
   match s with I 0 => Ok WBit | I 1 => Ok WQubit | _ => Err BadProgram end.
 Definition dec_ty (s : sexp) : res (list wty) := do l <- sx_list s; mapM dec_wty l.
+
+Definition dec_fixes (s : sexp) : res fixes :=
+  match s with
+  | L [a; b; c; d; e; f] =>
+      do a' <- sx_bool a; do b' <- sx_bool b; do c' <- sx_bool c;
+      do d' <- sx_bool d; do e' <- sx_bool e; do f' <- sx_bool f;
+      Ok (FX a' b' c' d' e' f')
+  | _ => Err BadProgram
+  end.
 
 Definition dec_box (s : sexp) : res box :=
   match s with
@@ -141,23 +151,23 @@ Definition scalar_id_of (t : tkc) (flag : bool) : option Z := if flag then Some 
 
 Definition run_sexp (s : sexp) : sexp :=
   match s with
-  | L [I 1; c] =>
-      answer (do c' <- dec_circuit c;
-              match to_tk c' with
-              | Ok t => Ok (L [enc_tk t; enc_flags (to_tk_flags c'); of_bool (routing_ok c' t)])
-              | Err e => Ok (L [L [I 1; I (err_code e)]; enc_flags (to_tk_flags c'); of_bool false])
+  | L [I 1; fxs; c] =>
+      answer (do fx <- dec_fixes fxs; do c' <- dec_circuit c;
+              match to_tk fx c' with
+              | Ok t => Ok (L [enc_tk t; enc_flags (to_tk_flags fx c'); of_bool (routing_ok c' t)])
+              | Err e => Ok (L [L [I 1; I (err_code e)]; enc_flags (to_tk_flags fx c'); of_bool false])
               end)
-  | L [I 2; t; fl] =>
-      answer (do t' <- dec_tk t; do f <- sx_bool fl;
-              let tr := L [of_bool (f18_trigger t'); of_bool (f33_trigger t')] in
-              match from_tk t' (scalar_id_of t' f) with
+  | L [I 2; fxs; t; fl] =>
+      answer (do fx <- dec_fixes fxs; do t' <- dec_tk t; do f <- sx_bool fl;
+              let tr := L [of_bool (f18_trigger fx t'); of_bool (f33_trigger fx t')] in
+              match from_tk fx t' (scalar_id_of t' f) with
               | Ok c => Ok (L [enc_circuit c; of_bool (from_tk_trace_ok t' c);
                                of_bool (from_tk_routing_ok t' c); tr])
               | Err e => Ok (L [L [I 1; I (err_code e)]; of_bool false; of_bool false; tr])
               end)
-  | L [I 3; c] =>
-      answer (do c' <- dec_circuit c; do t <- to_tk c';
-              do c2 <- from_tk t (match t_scal t with [] => None | _ => Some 0 end);
+  | L [I 3; fxs; c] =>
+      answer (do fx <- dec_fixes fxs; do c' <- dec_circuit c; do t <- to_tk fx c';
+              do c2 <- from_tk fx t (match t_scal t with [] => None | _ => Some 0 end);
               Ok (enc_circuit c2))
   | L [I 4; c] => answer (do c' <- dec_circuit c; Ok (enc_circuit (prep c')))
   | _ => L [I 1; I (err_code BadProgram)]
